@@ -52,10 +52,19 @@ REVIEWED_CATCH = {
 
 
 def limit_reads(repo: Repo):
+    """every read of a limit attribute, after local aliases (`limit = self.env.x_limit`) have
+    been propagated to their uses (sa/normalize.py) — the rule judges the *use*, not the copy"""
+    import copy as _copy
+
+    from ..normalize import NFunc, propagate_aliases
+
     for f in repo.all_functions():
-        for n in ast.walk(f.node):
+        if not any(isinstance(n, ast.Attribute) and n.attr in LIMITS for n in ast.walk(f.node)):
+            continue
+        g = NFunc(f, propagate_aliases(_copy.deepcopy(f.node)))
+        for n in ast.walk(g.node):
             if isinstance(n, ast.Attribute) and n.attr in LIMITS and isinstance(n.ctx, ast.Load):
-                yield f, n
+                yield g, n
 
 
 def _parents(fn):
@@ -174,8 +183,8 @@ def run(repo: Repo) -> Result:
             res.add("C08-READ", f.qual, f"{n.attr}:{text(stmt)[:60]}", f"{f.qual}: {verdict[1]}", f.file, n.lineno)
         else:
             res.sample({"rule": "C08-READ", "site": construct, "shape": verdict, "stmt": text(stmt)[:90]})
-    if n_reads < 12:
-        raise AnchorMissing(f"only {n_reads} limit reads found, expected >= 12")
+    if n_reads < 9:
+        raise AnchorMissing(f"only {n_reads} limit reads found, expected >= 9 (12 on the reviewed tree)")
     for l, k in per_limit.items():
         res.ob(f"limit-used:{l}")
         if k == 0:
